@@ -56,6 +56,8 @@ def make_ops(rng, cfg, profile, tier):
         ops.insert(rng.randrange(len(ops) + 1), {'op': 'REREGISTER', 'a': [rng.randrange(1, 5)]})
     if rng.random() < 0.25:
         ops.insert(rng.randrange(len(ops) + 1), {'op': 'SHARED_MODELS', 'a': [rng.choice([2, 4, 6]), rng.randrange(4)]})
+    if rng.random() < 0.25:
+        ops.insert(rng.randrange(len(ops) + 1), {'op': 'OBJECTIVE', 'a': [rng.choice([2, 4, 6, 10]), rng.randrange(4)]})
     if rng.random() < 0.3:
         ops.insert(rng.randrange(len(ops) + 1), {'op': 'EVAL_KEPT', 'a': [rng.choice([6, 10]), rng.choice([2, 4]), rng.randrange(4)]})
     for _ in range(rng.randrange(0, 3)):
@@ -347,6 +349,29 @@ class Session:
                                               f'likelihood of a live object: {before!r} -> {after!r}')
                 ctx.probe('unrelated Monte-Carlo evaluation between construction and use')
             ctx.log(kind, R2)
+        elif kind == 'OBJECTIVE':
+            # the Monte-Carlo formula wrapped as an objective function (create_objective_function): the number of draws asked
+            # for is the number of draws used, and the value is the sum over the observations of the means
+            R, k = a
+            betas = self.betas_at(k)
+            ast = self.integrand()
+            e = ex.MonteCarlo(self.build(ast))
+            self.calls.clear()
+            fobj = e.create_objective_function(database=self.db, number_of_draws=R, gradient=True, hessian=False)
+            names_ = sorted(ref.collect(ast, [])['beta'])
+            fobj.set_variables(np.array([betas[n_] for n_ in names_], dtype=float))
+            got = float(fobj.f())
+            calls = list(self.calls)
+            self.check_shapes(calls, R, 'create_objective_function')
+            gens = self.generations(calls, R)
+            if not gens:
+                ctx.fail('I10.gen', f'create_objective_function recorded no complete generation of {R} draws ({len(calls)} calls)')
+            if not any(ref.close(got, sum(self.mc_reference(g_, betas, R)), 1e-10, 1e-12) for g_ in gens):
+                ctx.fail('I10.mean', f'objective function built on the Monte-Carlo formula with {R} draws: {got!r} is not the sum '
+                                     f'over the observations of the means over the recorded series '
+                                     f'(e.g. {sum(self.mc_reference(gens[-1], betas, R))!r})')
+            ctx.probe('Monte-Carlo formula wrapped as an objective function')
+            ctx.log(kind, R, fhex(got))
         elif kind == 'SHARED_MODELS':
             # two models on one database that SHARE a draw variable object; in the two models the shared variable sits at
             # another place among the draw variables (alphabetical numbering), and each model must go on feeding every
@@ -560,6 +585,11 @@ class Session:
             # a formula without draws listed after the Monte-Carlo ones (the object still needs its draws)
             forms['det'] = ex.Variable('x0') * 2 + 1
             ctx.probe('formula without draws listed last')
+        if (seed + R) % 3 == 0:
+            # a numerical integral in the same object: integration variables are numbered between parameters and draws
+            om_ = ex.RandomVariable('omega_obj')
+            forms = dict({'integ': ex.Integrate(ex.exp(-om_ * om_ / 2.0) * (1 + 0.1 * ex.Variable('x0')), 'omega_obj')}, **forms)
+            ctx.probe('numerical integral and Monte-Carlo formulas in one object')
         if seed_as_kwarg:
             b = bio.BIOGEME(self.db, forms, parameters=p, seed=seed)
         else:
